@@ -78,7 +78,9 @@ func IntBoundary(mn, mx *int64) []int64 {
 	return dedupeInts(v)
 }
 
-var unitStringsSec = []any{"5m30s", "1m 4s", "90s", "1H", "2 minutes", "1d1s", "0s", "1m30", "30s5m", "5x", "1.5s", "1.5m", " 7 ", "1m1m"}
+var unitStringsSec = []any{"5m30s", "1m 4s", "90s", "1H", "2 minutes", "1d1s", "0s", "1m30", "30s5m", "5x", "1.5s", "1.5m", " 7 ", "1m1m",
+	// three and four components, the base one fractional (every whole component has to reach the float total)
+	"1H5m5.5s", "1d2H3m4.25s", "2H30m0.5"}
 var unitStringsBytes = []any{"1kB", "1kB24B", "2 MB", "1024B", "1.5kB", "5 bytes", "1B1kB", "1GB1MB1kB1B"}
 
 // extremeNumbers are values at the edges of the numeric domains, in the representations they occur in.
@@ -422,7 +424,11 @@ func RawValues(s *Spec) []any {
 			[]any{}, []any{int64(1), "x"}, []string{"a"}, []int{1},
 			map[string]any{"a": int64(1)}, map[any]any{"a": int64(1), int64(2): "b"}, map[int64]any{1: "x"}, map[any]any{1.5: "x"},
 			map[string]any{"n": map[string]any{"l": []any{map[any]any{}}}},
-			[]byte("raw"), MyStr("named"))
+			[]byte("raw"), MyStr("named"),
+			// lists that already are []any but whose items are not in normal form yet (an in-place conversion would
+			// rewrite the caller's list)
+			[]any{int(1), int(2)}, []any{uint8(3)}, []any{float32(1.5)}, []any{map[string]any{"a": int(1)}},
+			[]any{[]any{int(1)}}, map[string]any{"l": []any{int(1), int(2)}})
 	case KList:
 		items := RawValues(s.Item)
 		good := ValidValues(s.Item, 2)
